@@ -82,6 +82,9 @@ async fn checkpoint_update_git<'a>(
         None => git::git_cmd_rev_parse(input.git_opts.git_path, work_path, "HEAD").await?,
     };
 
+    // the pending map always describes the state at this update; entries recorded by an
+    // earlier update must not linger, or they keep hiding later changes of those paths
+    checkpoint.pending = None;
     if input.pending {
         // get all changes with default checkpoint, i.e. [HEAD, staging area]
         let pending_changes =
